@@ -1148,9 +1148,9 @@ def main():
     table_after_stream(run, kits[0], state_policy, run.n(6, 40))
     calendar_repair_stream(run, kits[0], run.n(8, 60))
     run.log("hourly done")
-    daily_stream(run, [gen_daily_case(run.rng, k) for k in range(run.n(120, 2000))])
+    daily_stream(run, [gen_daily_case(run.rng, k) for k in range(run.n(100, 2000))])
     subdaily_stream(run, [c for c in corpus if c.get("stream") == "subdaily"] +
-                    [gen_subdaily_case(run.rng, k) for k in range(run.n(18, 300))])
+                    [gen_subdaily_case(run.rng, k) for k in range(run.n(14, 300))])
     run.log("daily/billing synthetic done")
     fit_stream(run, [("daily", seeds[2]), ("billing", seeds[3])] if run.quick() else
                [(k, run.rng.randrange(2**31)) for k in ["daily", "billing"] * 4])
